@@ -168,6 +168,16 @@ def run(ctx):
                     except Exception as e:
                         b = "raises %s: %s" % (type(e).__name__, str(e)[:100])
                     ctx.count("evaluations")
+                    if a != b and any(n[0] == "call" and n[1] == "now" for n in T.walk(t)):
+                        # the two spellings are executed at two moments: with now() in the
+                        # filter only a difference that survives a second look is one
+                        try:
+                            a2, b2 = run_style(style, to_text(t)), run_style(style, variant)
+                        except Exception:
+                            a2, b2 = None, None
+                        ctx.count("clock_dependent_recheck")
+                        if a2 == b2:
+                            continue
                     if a != b:
                         ctx.fail({"filter": to_text(t), "variant": variant, "style": style, "term": t},
                                  "keyword spelling changes the result", expected=a, observed=b,
